@@ -200,6 +200,14 @@ type world struct {
 	resLo    []int // sLo of the resolutions in order of their return
 	nShed    int
 	nAdmit   int
+	// exact in-flight conservation (white-box counter read through a seam)
+	sh     load.Shedder // the shedder object the last Allow of this world went to
+	busy   int          // Allow / Pass / Fail calls executing on this shedder right now
+	seq    int          // bumped whenever such a call starts or ends
+	peak   int          // most requests ever possibly in flight at one instant
+	nExact int          // exact comparisons made
+	// the shedder sits behind rest SheddingHandler / the zrpc interceptor (coverage only)
+	behindWrappers bool
 }
 
 // option shapes
@@ -402,9 +410,13 @@ func (w *world) allow() *call {
 	c := &call{id: len(w.calls), w: w}
 	w.calls = append(w.calls, c)
 	sh := w.get()
+	w.sh = sh
 	e.opened(c)
 	c.kInv, c.tInv = e.tick(), w.now()
+	w.opBegin()
+	w.notePeak()
 	p, err := sh.Allow()
+	w.opEnd()
 	shed := true
 	switch {
 	case err == nil:
@@ -419,6 +431,8 @@ func (w *world) allow() *call {
 			w.fail("promise-nil", "Allow %d returned neither a promise nor an error", c.id)
 		}
 	})
+	w.racedResolution(c)
+	w.checkInFlight("Allow", c)
 	return c
 }
 
@@ -479,12 +493,115 @@ func b2i(b bool) int64 {
 // resolve resolves the promise of an admitted call exactly once.
 func (w *world) resolve(c *call, pass bool) {
 	w.resolveBegin(c, pass)
+	w.opBegin()
 	if pass {
 		c.p.Pass()
 	} else {
 		c.p.Fail()
 	}
+	w.opEnd()
 	w.resolveEnd(c)
+	w.checkInFlight("resolution", c)
+}
+
+// --- exact in-flight conservation -------------------------------------------------
+//
+// "Each admitted request counts as in flight from Allow until its promise is resolved
+// once": whenever no Allow / Pass / Fail is executing on a shedder (a quiescent point:
+// one task runs at a time, so that is every instant at which the harness' own count of
+// running calls is zero), the shedder's in-flight counter - read through the accessor
+// seam load.VerifC02InFlight - must equal the number of requests the harness was
+// handed a promise for and has not resolved yet.  Its moving average, being an average
+// of in-flight counts, can never leave the range [0, most requests ever in flight].
+
+func (w *world) opBegin() { w.busy++; w.seq++ }
+func (w *world) opEnd()   { w.busy--; w.seq++ }
+
+// notePeak: upper bound of the number of requests in flight at this instant (every
+// request whose Allow has been invoked and whose resolution has not returned).
+func (w *world) notePeak() {
+	n := 0
+	for _, d := range w.calls {
+		if !(d.done && d.shed) && d.kRRet == 0 {
+			n++
+		}
+	}
+	if n > w.peak {
+		w.peak = n
+	}
+}
+
+// racedResolution: coverage only - the Allow of c overlapped the resolution of
+// another request on the same shedder (the interleaving the conservation clause
+// quantifies over).
+func (w *world) racedResolution(c *call) {
+	for _, d := range w.calls {
+		if d != c && d.kRInv != 0 && d.kRInv < c.kRet && (d.kRRet == 0 || d.kRRet > c.kInv) {
+			w.e.r.Probe("allow-overlapped-resolution-of-another-request")
+			if !c.shed && (d.kRRet == 0 || c.kInv > d.kRInv) {
+				w.e.r.Probe("allow-admitted-inside-resolution-of-another-request")
+			}
+			return
+		}
+	}
+}
+
+// checkInFlight compares the counter with the harness' books if this is a quiescent
+// point of the shedder; after says which call just returned (messages only).
+func (w *world) checkInFlight(after string, c *call) {
+	r := w.e.r
+	if w.sh == nil || r.Failed() {
+		return
+	}
+	if w.busy != 0 {
+		r.Probe("inflight-not-quiescent")
+		return
+	}
+	s0 := w.seq
+	cnt, avg, ok := load.VerifC02InFlight(w.sh)
+	if !ok {
+		return // not an adaptive shedder (shedding disabled)
+	}
+	if w.seq != s0 || w.busy != 0 {
+		// the accessor itself was interrupted by a call on this shedder: the value read
+		// belongs to no quiescent instant
+		r.Probe("inflight-read-interrupted")
+		return
+	}
+	want := 0
+	for _, d := range w.calls {
+		if d.done && !d.shed && d.p != nil && d.kRInv == 0 {
+			want++
+		}
+	}
+	w.nExact++
+	r.Probe("inflight-exact")
+	if w.e.nTasks > 1 {
+		r.Probe("inflight-exact-concurrent-clients")
+	}
+	if want > 0 {
+		r.Probe("inflight-exact-nonzero")
+	}
+	switch {
+	case w.behindWrappers:
+		r.Probe("inflight-exact-shedder-behind-rest-zrpc-wrappers")
+	case w.pfx == "group/":
+		r.Probe("inflight-exact-group-member")
+	case w.pfx == "fleet/":
+		r.Probe("inflight-exact-fleet-member")
+	}
+	id := -1
+	if c != nil {
+		id = c.id
+	}
+	switch {
+	case cnt < int64(want):
+		w.fail("inflight-undercount", "after %s #%d at %v, with no Allow / Pass / Fail running, the shedder counts %d requests in flight; %d admitted requests have not been resolved", after, id, w.now(), cnt, want)
+	case cnt > int64(want):
+		w.fail("inflight-overcount", "after %s #%d at %v, with no Allow / Pass / Fail running, the shedder counts %d requests in flight; only %d admitted requests have not been resolved", after, id, w.now(), cnt, want)
+	case avg < -1e-9 || avg > float64(w.peak)+1e-9:
+		w.fail("inflight-average-range", "after %s #%d at %v the moving average of the in-flight count is %.6f; the in-flight count itself never left [0, %d]", after, id, w.now(), avg, w.peak)
+	}
 }
 
 // resolveBegin: from here on the promise of c may be being resolved (with the given outcome).
@@ -914,12 +1031,14 @@ func mixed(e *env, tier string, disabled bool, mode int) {
 	nClients := t.Range(1, maxC)
 	e.nTasks = nClients + 1
 	plans := make([][]op, nClients)
+	homes := make([]int, nClients)
 	for i := range plans {
 		n := t.Range(2, maxOps)
 		home := 0
 		if multi {
 			home = t.Intn(nKeys)
 		}
+		homes[i] = home
 		for j := 0; j < n; j++ {
 			var o op
 			switch v := t.Intn(10); {
@@ -939,6 +1058,27 @@ func mixed(e *env, tier string, disabled bool, mode int) {
 				}
 			}
 			plans[i] = append(plans[i], o)
+		}
+	}
+	// churn: in a quarter of the runs every client first runs 1-12 (thorough 1-30)
+	// back-to-back admit / resolve pairs on its home shedder, so that the Allows of one
+	// client keep landing inside the Pass / Fail calls of the others (and the other way
+	// round) while little is in flight
+	if t.Chance(1, 4) {
+		maxChurn := 12
+		if tier == "thorough" {
+			maxChurn = 30
+		}
+		n := t.Range(1, maxChurn)
+		for i := range plans {
+			var pre []op
+			for j := 0; j < n; j++ {
+				pre = append(pre, op{kind: 0, key: homes[i]}, op{kind: 1 + (i+j)%2, key: homes[i]})
+			}
+			plans[i] = append(pre, plans[i]...)
+		}
+		if nClients > 1 {
+			r.Probe("mixed-churn-of-admit-resolve-pairs")
 		}
 	}
 	type flip struct {
@@ -1075,6 +1215,11 @@ func (w *world) conservation() {
 	e := w.e
 	if e.r.Failed() {
 		return
+	}
+	// everything has returned: the counter must be back at zero
+	w.checkInFlight("the end of the scenario", nil)
+	if w.nExact > 0 && !e.r.Failed() {
+		e.r.Probe("inflight-exact-at-the-end")
 	}
 	e.setCPU(1000)
 	for i := 0; i < 3; i++ {
